@@ -77,6 +77,7 @@ Definition P_NEG_COIN := 102.
 Definition P_OVERFLOW := 103.
 Definition P_NIL := 104.
 Definition P_STAKING := 105.
+Definition P_DIV_ZERO_INTERVAL := 106.   (* Go integer division by a zero TakeRateClaimInterval *)
 
 (* The keeper's IterateAllianceValidatorInfo pattern
      err = k.Iterate...(func(...) bool { ...; x, err = f(); if err != nil { return true } ... })
